@@ -94,6 +94,19 @@ def build(item):
         return item["v"]
     if k == "raw":
         return item["s"]
+    if k == "subclass":  # str / dict SUBCLASSES where the writer tests isinstance
+        import collections
+
+        how = item["how"]
+        if how == "str":
+            return type("WireText", (str,), {})(item["s"])
+        if how == "ordered":
+            return collections.OrderedDict(item["v"])
+        if how == "defaultdict":
+            d = collections.defaultdict(list)
+            d.update(item["v"])
+            return d
+        return type("Envelope", (dict,), {"__repr__": lambda self: "Envelope(...)"})(item["v"])
     if k == "duck":
         return Duck(item["v"])
     if k == "duckjson":
@@ -164,6 +177,8 @@ def expected_line(item):
         return {"json": item["v"]}
     if k == "raw":
         return {"text": item["s"]}
+    if k == "subclass":
+        return {"text": item["s"]} if item["how"] == "str" else {"json": item["v"]}
     if k in ("duck", "duckjson"):
         return {"json": {f: x for f, x in item["v"].items() if x is not None}}
     if k == "other":  # not one of the three accepted shapes: the property does not say whether it is sent
@@ -286,6 +301,7 @@ def run_duplex(cases):
             "lines": lines, "tail": d["tail"][:200], "nsends": len(o["sends"]), "nbytes": len(data),
             "closed_before": o["before_close"]["closed"], "closed_after": o["after_close"]["closed"],
             "sends_at_close": o["after_close"]["sends_at_close"], "delivered": o["delivered"],
+            "failed_sends": o.get("failed_sends", []),
         })
     return out
 
@@ -307,5 +323,6 @@ def run_cases(cases):
             "lines": d["lines"], "tail": d["tail"], "cr": d["cr"], "sends": o["sends"],
             "closed_before": o["before_close"]["closed"], "closed_after": o["after_close"]["closed"],
             "sends_at_close": o["after_close"]["sends_at_close"], "backend": backend, "late": o.get("late"),
+            "failed_sends": o.get("failed_sends", []),
         })
     return out
